@@ -49,3 +49,18 @@ Fixpoint wf_hist (fl : flavour) (n : nat) (ops : list rop) : bool :=
 Definition chain_regs (s : sys) (r : nat) : list reg := map (fun i => rs_reg (get s i)) (fresh_ro s r).
 
 Definition res_of {A} (o : option A) : res A := match o with Some v => RVal v | None => RDefault end.
+
+(* the registry whose generation operation [o] bumps when it runs in state [s]
+   (None: [o] is a query, or a storage operation that changes nothing) *)
+Definition changed_gen (s : sys) (m : nat) (f : reg -> reg) : option nat :=
+  if Nat.eqb (generation (f (rs_reg (get s m)))) (generation (rs_reg (get s m))) then None else Some m.
+
+Definition bump_target (W : world) (s : sys) (o : rop) : option nat :=
+  match o with
+  | OSetRegBases m _ => Some m
+  | ORegister m req p n v => changed_gen s m (fun g => register W g req p n v)
+  | OUnregister m req p n v => changed_gen s m (fun g => unregister W g req p n v)
+  | OSubscribe m req p v => changed_gen s m (fun g => subscribe W g req p v)
+  | OUnsubscribe m req p v => changed_gen s m (fun g => unsubscribe W g req p v)
+  | _ => None
+  end.
